@@ -599,7 +599,8 @@ func GuardingConds(fn *ssa.Function, in ssa.Instruction) (conds []ssa.Value, tak
 		if !ok || !d.Dominates(tb) {
 			continue
 		}
-		t, f := reachDAG(d.Succs[0]), reachDAG(d.Succs[1])
+		// a successor entered through a loop back edge (`continue`) starts the NEXT pass: it does not lead to `in` within this one
+		t, f := !isBack(d, d.Succs[0]) && reachDAG(d.Succs[0]), !isBack(d, d.Succs[1]) && reachDAG(d.Succs[1])
 		if t == f {
 			continue
 		}
@@ -623,4 +624,71 @@ func GuardingConds(fn *ssa.Function, in ssa.Instruction) (conds []ssa.Value, tak
 		taken = append(taken, t)
 	}
 	return
+}
+
+// EarlyLoopExits lists the edges (and returns) that leave a loop of fn from somewhere other than the loop's header test:
+// `break`, `return`, `goto` out of the body. A scan that must visit every element has none.
+// A loop is identified by its header (a block with an incoming back edge); its body is the set of blocks dominated by the
+// header from which the header is reachable.
+type LoopExit struct {
+	Header *ssa.BasicBlock
+	From   *ssa.BasicBlock
+	To     *ssa.BasicBlock // nil for a return
+}
+
+func EarlyLoopExits(fn *ssa.Function) []LoopExit {
+	var out []LoopExit
+	for _, h := range fn.Blocks {
+		isHeader := false
+		for _, pr := range h.Preds {
+			if h.Dominates(pr) {
+				isHeader = true
+			}
+		}
+		if !isHeader {
+			continue
+		}
+		// body: blocks dominated by h that reach h
+		body := map[*ssa.BasicBlock]bool{h: true}
+		changed := true
+		for changed {
+			changed = false
+			for _, b := range fn.Blocks {
+				if body[b] || !h.Dominates(b) {
+					continue
+				}
+				for _, s := range b.Succs {
+					if body[s] {
+						body[b] = true
+						changed = true
+						break
+					}
+				}
+			}
+		}
+		for b := range body {
+			if b == h {
+				continue
+			}
+			if len(b.Instrs) > 0 {
+				if _, ok := b.Instrs[len(b.Instrs)-1].(*ssa.Return); ok {
+					out = append(out, LoopExit{h, b, nil})
+				}
+			}
+			for _, s := range b.Succs {
+				if !body[s] {
+					out = append(out, LoopExit{h, b, s})
+				}
+			}
+		}
+	}
+	return out
+}
+
+// DominatedByEdge reports whether every path from the entry of fn to `in` takes edge e.
+func DominatedByEdge(fn *ssa.Function, in ssa.Instruction, e Edge) bool {
+	_, found := PathExists(PathQuery{Fn: fn,
+		Target: func(x ssa.Instruction) bool { return x == in },
+		Edge:   ForbidEdges([]Edge{e})})
+	return !found
 }
